@@ -161,12 +161,41 @@ pub struct Trace {
     pub rejected_config: bool,
 }
 
+const FOREIGN_ACCEPTED: &str = "\u{1}a request with another configuration was accepted for the location";
+
 fn reopen_checked(st: &mut Store, m: &TreeModel, what: &str) -> Result<u64, String> {
     match st.bm().apply(&ROp::Flush) {
         Some(Ok(Ok(()))) => {}
         other => return Err(format!("{what}: flush failed without an injected fault: {:?}", other.map(|r| r.map_err(|p| p.0)))),
     }
     st.close();
+    // Between the two sessions somebody may ask for the same location with a configuration the
+    // library refuses (a temporary tree on an existing path; compression, which this build of the
+    // storage engine lacks; a document that is not a configuration). A refused request is part of the
+    // history and must leave what is stored alone. Should such a request be *accepted*, the location
+    // was legitimately handed to another owner and nothing more is judged for this case.
+    let variant = (m.mark + st.depth + what.len()) % 5;
+    if variant != 0 {
+        let mut tc: serde_json::Value = serde_json::from_str(&st.cfg.tree_config_json(&st.dir)).unwrap();
+        match variant {
+            1 | 2 => tc["temporary"] = serde_json::Value::Bool(true),
+            3 => tc["use_compression"] = serde_json::Value::Bool(true),
+            _ => {}
+        }
+        // variant 4: a document cut in the middle (not a configuration at all)
+        let tcs = if variant == 4 { let t = tc.to_string(); t[..t.len() / 2].to_string() } else { tc.to_string() };
+        let depth = st.depth;
+        let accepted = if variant == 2 || (variant > 2 && st.api == Api::Rln) {
+            let json = format!("{{\"tree_config\": {tcs}}}");
+            matches!(guarded(|| RLN::new(depth, Cursor::new(json)).map(|_| ()).map_err(estr)), Ok(Ok(())))
+        } else {
+            matches!(guarded(|| PmtreeConfig::from_str(&tcs).map_err(estr).and_then(|c| PmTree::new(depth, Fr::from(0u64), c).map(|_| ()).map_err(estr))), Ok(Ok(())))
+        };
+        // an accepted non-temporary request is simply one more (empty) session on the location
+        if accepted && variant <= 2 {
+            return Err(FOREIGN_ACCEPTED.into());
+        }
+    }
     match st.open() {
         Ok(Ok(())) => {}
         Ok(Err(e)) => return Err(format!("{what}: reopening the location failed: {e}")),
@@ -209,6 +238,10 @@ pub fn run_nofault(ctx: &Ctx, case: &Case, base: &std::path::Path, o: &mut Outco
         if matches!(op, Op::Reopen) {
             match reopen_checked(&mut st, &m, &format!("step {k}")) {
                 Ok(n) => o.evals += n,
+                Err(e) if e == FOREIGN_ACCEPTED => {
+                    o.label("foreign-request-accepted/case-ends");
+                    return Some(Trace { after_open: 0, after_step: vec![], total: 0, rejected_config: true });
+                }
                 Err(e) => {
                     vfail!(o, "{e}");
                     return None;
@@ -239,6 +272,10 @@ pub fn run_nofault(ctx: &Ctx, case: &Case, base: &std::path::Path, o: &mut Outco
     // forced final reopen, then the reopened tree must keep behaving like the ideal tree
     match reopen_checked(&mut st, &m, "final") {
         Ok(n) => o.evals += n,
+        Err(e) if e == FOREIGN_ACCEPTED => {
+            o.label("foreign-request-accepted/case-ends");
+            return Some(Trace { after_open: 0, after_step: vec![], total: 0, rejected_config: true });
+        }
         Err(e) => {
             vfail!(o, "{e}");
             return None;
@@ -252,6 +289,10 @@ pub fn run_nofault(ctx: &Ctx, case: &Case, base: &std::path::Path, o: &mut Outco
     }
     match reopen_checked(&mut st, &m, "second final") {
         Ok(n) => o.evals += n,
+        Err(e) if e == FOREIGN_ACCEPTED => {
+            o.label("foreign-request-accepted/case-ends");
+            return Some(Trace { after_open: 0, after_step: vec![], total: 0, rejected_config: true });
+        }
         Err(e) => {
             vfail!(o, "{e}");
             return None;
@@ -821,7 +862,7 @@ impl Property for C16 {
     }
     fn rule(&self) -> String {
         "generated (history over {set, delete, append, set_range, batch, set_metadata, flush, flush+drop+reopen}, storage configuration {cache size, flush period, mode, compression, path shape}, API surface {PmTree trait, RLN byte API}, depth 3..6/10/20). \
-         Every case: no-fault run against the ideal model with observation after every step, forced final reopen + three more operations + reopen. \
+         Every case: no-fault run against the ideal model with observation after every step, forced final reopen + three more operations + reopen; in four of five reopen steps a request the library refuses is made for the same location between the two sessions (a temporary tree on the existing path, through the configuration parser or RLN::new; compression; a malformed configuration) and must leave what is stored alone. \
          FaultAll/FaultAt: the history is re-run on a fresh directory with the storage adapter hook failing storage operation k+1 (one-shot or sticky) for every k < K (K counted by the hook in the no-fault run; stratified to a fixed maximum when K is large): the call in which the failure fires must return Err (not Ok, not panic), and when it was the request's first storage operation (nothing written) every in-session observation incl. the empty-position list must be unchanged; at every other one-shot position the identical request is retried (appends excepted) and, if acknowledged, the rest of the history runs and the reopened tree must equal the ideal tree completely (root included); otherwise, after clearing the fault, flush, drop and reopen every position holds its acknowledged value (positions targeted by the failed request: acknowledged or requested value), leaves_set >= acknowledged mark, metadata acknowledged or requested. \
          Crash: the history runs in a child process that abort()s inside storage operation k+1; after reopening, every position holds a value it had at some acknowledged state since the last acknowledged flush (or the interrupted request's value). \
          evaluations = observations compared; one case = one history with all its fault/crash runs. \
